@@ -338,6 +338,8 @@ class Facts:
             self.fns[name] = Fn(name, d, api['types'], api['adts'], 'fatfs')
         for name, d in wit['fns'].items():
             self.fns[name] = Fn(name, d, wit['types'], wit['adts'], 'witness')
+        for f_ in self.fns.values():
+            f_.facts_ref = self
         self.adts = dict(wit['adts'])
         self.adts.update(api['adts'])
         self.consts = api.get('consts', {})
